@@ -148,13 +148,36 @@ def run_harness(pid, tier, seed, extra_env=None, race=False):
 
 
 def run_driver(pid):
+    """Replays the cases on the extracted model; large inputs are sharded over the cores
+    (cases are independent of each other)."""
     fin = os.path.join(WORK, pid + ".in")
     fout = os.path.join(WORK, pid + ".model")
-    with open(fin, "rb") as i, open(fout, "wb") as o:
-        p = subprocess.run(["sh", "-c", "ulimit -s unlimited 2>/dev/null; exec " + os.path.join(OCAML, "driver")],
-                           stdin=i, stdout=o, stderr=subprocess.PIPE, timeout=6000)
-    if p.returncode != 0:
-        raise Fail("driver crashed: " + p.stderr.decode()[-2000:])
+    cmd = "ulimit -s unlimited 2>/dev/null; exec " + os.path.join(OCAML, "driver")
+    lines = open(fin, "rb").readlines()
+    nsh = 12 if len(lines) > 60000 else 1
+    if nsh == 1:
+        with open(fin, "rb") as i, open(fout, "wb") as o:
+            p = subprocess.run(["sh", "-c", cmd], stdin=i, stdout=o, stderr=subprocess.PIPE, timeout=6000)
+        if p.returncode != 0:
+            raise Fail("driver crashed: " + p.stderr.decode()[-2000:])
+        return
+    per = (len(lines) + nsh - 1) // nsh
+    procs = []
+    for k in range(nsh):
+        part = lines[k * per:(k + 1) * per]
+        pin = os.path.join(WORK, "%s.in.%d" % (pid, k))
+        pout = os.path.join(WORK, "%s.model.%d" % (pid, k))
+        open(pin, "wb").writelines(part)
+        procs.append((subprocess.Popen(["sh", "-c", cmd], stdin=open(pin, "rb"), stdout=open(pout, "wb"),
+                                       stderr=subprocess.PIPE), pin, pout))
+    with open(fout, "wb") as o:
+        for p, pin, pout in procs:
+            _, err = p.communicate(timeout=6000)
+            if p.returncode != 0:
+                raise Fail("driver crashed: " + err.decode()[-2000:])
+            o.write(open(pout, "rb").read())
+            os.remove(pin)
+            os.remove(pout)
 
 
 def read_stream(path):
